@@ -58,6 +58,18 @@ MUTANTS = {
             ('gpu-ppo-to-ppi', 'wave_sim.py', "    s[0, y, x] = s[2, y, x]\n    s[1, y, x] = time\n    s[2, y, x] = s[8, y, x]", "    s[0, y, x] = s[2, y, x]\n    s[1, y, x] = time\n    s[2, y, x] = s[6, y, x]"),
             ('strip-alias-caps', 'sim.py', "                self.c_locs[lidx], self.c_caps[lidx] = self.c_locs[stem], self.c_caps[stem]", "                self.c_locs[lidx], self.c_caps[lidx] = self.c_locs[stem], self.c_caps[lidx]"),
             ('sims-k-off', 'wave_sim.py', "        sims = min(sims or self.sims, self.sims)\n        for op_start, op_stop in zip(self.level_starts, self.level_stops):\n            level_eval_cpu", "        sims = min((sims or self.sims) + 1, self.sims)\n        for op_start, op_stop in zip(self.level_starts, self.level_stops):\n            level_eval_cpu")],
+    'C15': [('alias-r', 'logic.py', "    if value in ['R', 'r', '/']: return RISE", "    if value in ['R', '/']: return RISE"),
+            ('alias-order', 'logic.py', "    if value in [None, '-', 'Z', 'z']: return UNASSIGNED\n    if value in ['R', 'r', '/']: return RISE\n    if value in ['F', 'f', '\\\\']: return FALL", "    if value in [None, '-', 'Z', 'z']: return UNASSIGNED\n    if value in ['R', 'r', '\\\\']: return RISE\n    if value in ['F', 'f', '/']: return FALL"),
+            ('bp-bitorder', 'logic.py', "    return packbits(np.unpackbits(bpa, axis=-1, bitorder='little').swapaxes(-1,-2))", "    return packbits(np.unpackbits(bpa, axis=-1, bitorder='big').swapaxes(-1,-2))"),
+            ('pack-sign-pad', 'logic.py', "        a = np.pad(a, p, 'edge') if dtype.name[0] == 'i' else np.pad(a, p, 'constant', constant_values=0)", "        a = np.pad(a, p, 'edge') if dtype.name[0] == 'u' else np.pad(a, p, 'constant', constant_values=0)"),
+            ('mvarray-axes', 'logic.py', "    if mva.shape[-2] > 1: return mva.swapaxes(-1, -2)", "    if mva.shape[-2] > 2: return mva.swapaxes(-1, -2)"),
+            ('render-order', 'logic.py', "np.array([*'0X-1PRFN'], dtype=np.str_)", "np.array([*'0X-1PFRN'], dtype=np.str_)")],
+    'C20': [('via-loc-y', 'def_file.py', "                loc = (loc[0] if p[0] is None else p[0], loc[1] if p[1] is None else p[1])  # if None, keep previous value", "                loc = (loc[0] if p[0] is None else p[0], p[1] if p[1] is not None else loc[0])  # if None, keep previous value"),
+            ('array-short', 'def_file.py', "for x in range(x_cnt) for y in range(y_cnt)]", "for x in range(x_cnt) for y in range(max(1, y_cnt - 1))]"),
+            ('array-step-swapped', 'def_file.py', "                x_cnt, y_cnt, x_sp, y_sp = param", "                x_cnt, y_cnt, y_sp, x_sp = param"),
+            ('comp-orientation', 'def_file.py', "        orientation = args[3].value\n        self.def_file.components[name] = (kind, point, orientation)", "        orientation = args[3].value[-1]\n        self.def_file.components[name] = (kind, point, orientation)"),
+            ('pin-placed-xy', 'def_file.py', "        elif opt in ['placed']: val = (args[1][0], args[1][1], args[2].value)", "        elif opt in ['placed']: val = (args[1][1], args[1][0], args[2].value)"),
+            ('net-pins-order', 'def_file.py', "    def net_pin(self, args): return '__pin__', (args[0].value, args[1].value)", "    def net_pin(self, args): return '__pin__', (args[1].value, args[0].value)")],
 }
 
 
